@@ -60,6 +60,26 @@ package vgirpc
 //@   at call strings.Join assert [advertised] h.zstdEncoderLevel == (level < 0 ? 0 : level) && arg1 == ", "
 //@   at call (*HttpServer).producibleResponseEncodings assert [levelfirst] h.zstdEncoderLevel == (level < 0 ? 0 : level)
 
+// ServeHTTP negotiates over the client's whole lists: what chooseResponseEncoding is handed is
+// the comma-join of EVERY field line of the custom header and of Accept-Encoding (repaired
+// defect: Header.Get dropped all but the first line), and the producible set just computed.
+//
+//@ func (*HttpServer).ServeHTTP
+//@   property C17
+//@   pathvar customlines []string
+//@   pathvar stdlines []string
+//@   pathvar customlist string
+//@   pathvar stdlist string
+//@   at call (http.Header).Values#1 assert [customheader] arg1 == "X-VGI-Accept-Encoding"
+//@   at call (http.Header).Values#1 setflag customlines result
+//@   at call (http.Header).Values#2 assert [stdheader] arg1 == "Accept-Encoding"
+//@   at call (http.Header).Values#2 setflag stdlines result
+//@   at call strings.Join#1 assert [alllines] arg0 == customlines && arg1 == ","
+//@   at call strings.Join#1 setflag customlist result
+//@   at call strings.Join#2 assert [alllines] arg0 == stdlines && arg1 == ","
+//@   at call strings.Join#2 setflag stdlist result
+//@   at call chooseResponseEncoding assert [wholelists] arg0 == customlist && arg1 == stdlist && arg2 == producible
+
 // finish: a body is compressed only when a codec was negotiated, the content type is Arrow and
 // the body is non-empty; then the encoding is stamped on X-VGI-Content-Encoding iff the winner
 // came from the custom header only, else on Content-Encoding; otherwise the buffered bytes go
